@@ -130,9 +130,11 @@ CHECKS['C07'] = dict(level=MC, ref='4 C07',
     text='Reference = Fock.tla (graded Jordan-Wigner model; CAR model-checked in FockMC). TraceMpoGen.tla decides (i) generate_mpo: the MPO matrix (local basis translated to occupations via the '
          'library number operators) equals, entry by entry in Gaussian integers, the sum over terms of amplitude x operator word applied in the given order (repeated sites, any order, custom f_map '
          'placing sites in the fermionic order); (ii) measure_1site / measure_2site (single bonds i<j, i=j, i>j and every string pattern) / measure_nsite on integer MPS equal <bra| word |ket> on the '
-         'Fock vectors, with bra != ket in the sector the product maps to. Spin-1/2 runs with the grading "none" (bosonic: no strings); U1xU1 spinful with per-species grading.',
-    note='bounded: chain lengths 2..4 (<= 6 modes), 1-3 terms of 1-4 operators from {n, c, cp} / {nu, nd, cu, cd, cpu, cpd, Sp, Sm, nund}, 64/960 jobs x 14/20 events; Generator.mpo_from_latex, rdm and '
-         'sample probabilities not covered yet; generate_mpo output rounded to Gaussian integers at 1e-9 (SVD compression inside). measure_1site is also asked for all sites, for site lists and for dictionaries {site: operator} in any key order; sample(): for every drawn configuration the returned probability (logged as the integer nearest to p <psi|psi> m^N) must equal the Born rule |sum_S conj(u(S)) psi(S)|^2 computed by TLC - occupation basis in every symmetry, x / y bases (complex local vectors) in Spin12/dense; one-mode families only',
+         'Fock vectors, with bra != ket in the sector the product maps to; (iii) the LaTeX-like Generator: random expressions of its documented language (sums over one index or index tuples of named sets, '
+         'nested sums, scalar / indexed parameters, literals, (-1), leading and infix minus, products, a parenthesised sum of two products, site labels through the map) are requested with mpo_from_latex and the MPO '
+         'must equal the expansion of the expression into amplitude x operator words (the expansion is the meaning; every word is decided by TLC); (iv) rdm on 1-3 distinct sites in any order: Tr(rho . O_0 x O_1 ..) '
+         'with the operators multiplied by fkron in the order of the listed sites equals <psi| word |psi>. Spin-1/2 runs with the grading "none" (bosonic: no strings); U1xU1 spinful with per-species grading.',
+    note='bounded: chain lengths 2..4 (<= 6 modes), 1-3 terms of 1-4 operators from {n, c, cp} / {nu, nd, cu, cd, cpu, cpd, Sp, Sm, nund}, 64/960 jobs x 14/20 events; operator indices written as literal numbers in a LaTeX expression are not used (they are strings for the Generator and are not looked up in an integer map); generate_mpo output rounded to Gaussian integers at 1e-9 (SVD compression inside). measure_1site is also asked for all sites, for site lists and for dictionaries {site: operator} in any key order; sample(): for every drawn configuration the returned probability (logged as the integer nearest to p <psi|psi> m^N) must equal the Born rule |sum_S conj(u(S)) psi(S)|^2 computed by TLC - occupation basis in every symmetry, x / y bases (complex local vectors) in Spin12/dense; one-mode families only',
     technique='TLA+ Fock-space reference (Fock) + TLC trace validation of recorded generate_mpo / measure calls')
 CHECKS['C08'] = dict(level=MC, ref='4 C08',
     text='MpsCanon.tla: the gauge state machine of MpsMpoOBC (central-block position, per-site left/right isometry flags, exact-state / same-ray / unit-norm guarantees) with orthogonalize_site_, '
